@@ -5,11 +5,13 @@
    exactly these events.  Definitions only. *)
 From Emmet Require Import lib.Base model.MarkupConvert.
 
+(* [nl] is a ghost flag: the push made by push_newline (newline ++ baseIndent).  It is not
+   observable (the wire encoding drops it); theorems about lines and columns use it. *)
 Inductive oevent :=
-| EvText (s : str) (off line col : nat)
+| EvText (nl : bool) (s : str) (off line col : nat)
 | EvField (idx : N) (ph : str) (off line col : nat).
 
-Definition ev_text (e : oevent) : str := match e with EvText s _ _ _ => s | EvField _ ph _ _ _ => ph end.
+Definition ev_text (e : oevent) : str := match e with EvText _ s _ _ _ => s | EvField _ ph _ _ _ => ph end.
 
 Record ofmt := mkOfmt { of_indent : str; of_base_indent : str; of_newline : str }.
 
@@ -27,9 +29,10 @@ Definition os_set_level (o : ostream) (l : Z) : ostream :=
 Definition os_add_level (o : ostream) (d : Z) : ostream := os_set_level o (os_level o + d)%Z.
 
 (* push(text): the text callback is invoked, its result is appended *)
-Definition os_push (o : ostream) (s : str) : ostream :=
-  mkOs (EvText s (os_offset o) (os_line o) (os_column o) :: os_events o) (os_level o)
+Definition os_push_gen (nl : bool) (o : ostream) (s : str) : ostream :=
+  mkOs (EvText nl s (os_offset o) (os_line o) (os_column o) :: os_events o) (os_level o)
        (os_offset o + length s) (os_line o) (os_column o + length s).
+Definition os_push (o : ostream) (s : str) : ostream := os_push_gen false o s.
 
 Definition os_push_field (o : ostream) (idx : N) (ph : str) : ostream :=
   mkOs (EvField idx ph (os_offset o) (os_line o) (os_column o) :: os_events o) (os_level o)
@@ -42,7 +45,7 @@ Definition os_push_indent (f : ofmt) (o : ostream) (size : Z) : ostream :=
 (* push_newline(indent): [ind] = None (falsy: None/False/0), Some None (True: current level),
    Some (Some n) (an explicit non-zero size) *)
 Definition os_push_newline (f : ofmt) (o : ostream) (ind : option (option Z)) : ostream :=
-  let o1 := os_push o (of_newline f ++ of_base_indent f) in
+  let o1 := os_push_gen true o (of_newline f ++ of_base_indent f) in
   let o2 := mkOs (os_events o1) (os_level o1) (os_offset o1) (S (os_line o1)) (length (of_base_indent f)) in
   match ind with
   | None => o2
